@@ -189,7 +189,7 @@ def _post_tags(case):
 
 
 def generate(rng, tier):
-    N = 1200 if tier == 'quick' else 30000
+    N = 1200 if tier == 'quick' else 150000
     out = 0
     for k in range(N * 3):
         if out >= N:
@@ -202,8 +202,8 @@ def generate(rng, tier):
         yield c
     for directed in ['tie', 'cap', 'prev', 'mfc', 'zero', 'big']:
         cnt = 0
-        for k in range(4000):
-            if cnt >= (40 if tier == 'quick' else 400):
+        for k in range(4000 if tier == 'quick' else 40000):
+            if cnt >= (40 if tier == 'quick' else 2500):
                 break
             c = _gen_one(rng, directed)
             if sum(k2 for _, k2 in c['prev']) > c['n'] or not _eligible(c):
@@ -235,6 +235,25 @@ def generate(rng, tier):
                              '_tags': ['exhaustive']}
                         _post_tags(c)
                         yield c
+        # small scope with previous gains and caps: <= 3 parties, votes 0..3, n <= 5, every prev / cap assignment from {none, 0, 1, 2}
+        for m in range(1, 4):
+            for vals in itertools.product([0, 1, 2, 3], repeat=m):
+                if sum(vals) == 0:
+                    continue
+                for n in range(1, 6):
+                    for prevs in itertools.product([None, 1, 2], repeat=m):
+                        if sum(p or 0 for p in prevs) > n:
+                            continue
+                        for capd in itertools.product([None, 0, 1], repeat=m):
+                            div = DIVISORS[(sum(vals) + n + sum(p or 0 for p in prevs)) % len(DIVISORS)]
+                            prev = [[i, p] for i, p in enumerate(prevs) if p is not None]
+                            caps = [[i, (prevs[i] or 0) + d] for i, d in enumerate(capd) if d is not None]
+                            c = {'op': 'ha', 'divisor': div, 'first_coef': None,
+                                 'votes': [[i, str(v)] for i, v in enumerate(vals)], 'n': n, 'prev': prev, 'max': caps,
+                                 '_tags': ['exhaustive', 'exhaustive_prev_caps']}
+                            if _eligible(c):
+                                _post_tags(c)
+                                yield c
 
 
 def _args(case):
